@@ -71,6 +71,7 @@ type CallsiteSpec struct {
 	Callee   string // suffix-matched against the callee's qualified name
 	Requires []Clause
 	Assume   []Clause
+	AssumePre []Clause // assumed before the call's preconditions are checked (listed in evidence)
 	Ghost    []Assign // applied after the call
 	GhostPre []Assign // applied before the call
 	Line     int
@@ -112,6 +113,7 @@ type FunDecl struct {
 }
 
 type SharedDecl struct {
+	AnyWriter  bool   // no ownership needed to write (flags, error slots)
 	Field      string // Type.Field
 	Transition Expr   // over old, new (and the object x)
 	Closure    Expr
@@ -636,6 +638,10 @@ func parseSpecFile(file string, repoStyle bool, defaultPkg string, specs map[str
 				fatalf("%s:%d: bad shared", file, lineNo)
 			}
 			sd := &SharedDecl{Field: strings.TrimSpace(f[0])}
+			if strings.HasSuffix(sd.Field, " anywriter") {
+				sd.AnyWriter = true
+				sd.Field = strings.TrimSpace(strings.TrimSuffix(sd.Field, " anywriter"))
+			}
 			g := strings.SplitN(f[1], " closure ", 2)
 			sd.Transition = mustExpr(g[0], file, lineNo)
 			if len(g) == 2 {
@@ -660,6 +666,11 @@ func parseSpecFile(file string, repoStyle bool, defaultPkg string, specs map[str
 			} else {
 				fn.Requires = append(fn.Requires, parseClause(rest, file, lineNo))
 			}
+		case "assumepre":
+			if cs == nil {
+				fatalf("%s:%d: assumepre outside callsite", file, lineNo)
+			}
+			cs.AssumePre = append(cs.AssumePre, parseClause(rest, file, lineNo))
 		case "assume":
 			if cs == nil {
 				fatalf("%s:%d: assume outside callsite", file, lineNo)
@@ -716,6 +727,11 @@ func parseSpecFile(file string, repoStyle bool, defaultPkg string, specs map[str
 			cs = &CallsiteSpec{Callee: rest, Line: lineNo}
 			fn.Callsites = append(fn.Callsites, cs)
 			loop = nil
+		case "owns":
+			if fn == nil {
+				fatalf("%s:%d: owns outside func", file, lineNo)
+			}
+			fn.Effects = append(fn.Effects, "owns "+rest)
 		case "effect":
 			if fn == nil {
 				fatalf("%s:%d: effect outside func", file, lineNo)
